@@ -12,6 +12,7 @@ import (
 	"strings"
 	"sync"
 	"sync/atomic"
+	"syscall"
 	"testing"
 	"time"
 
@@ -475,12 +476,18 @@ func TestVfC14Saturated(t *testing.T) {
 // TestVfC14WriteStall: a server that stops reading. Queries of 60 KiB keep being written until the socket buffers of
 // the shared (or each) connection are full and the writes block; every exchange must still end by its own deadline.
 func TestVfC14WriteStall(t *testing.T) {
-	st := vfkit.Stats("TestVfC14WriteStall", "stream transports (tcp, tcp+pipeline, tls, tls+pipeline): after a warm-up exchange the server stops reading; 20-160 exchanges with 60 KiB queries and 0.5-1.5 s deadlines are started (several MiB on one pipelined connection: its send path blocks), then a small probe with a 100-400 ms deadline; oracle: every exchange returns by its deadline + 1.2 s, and after the server resumes reading a new exchange is answered within 3 s; non-trivial = pipelined kind with >= 60 big queries")
+	st := vfkit.Stats("TestVfC14WriteStall", "stream transports (tcp, tcp+pipeline, tls, tls+pipeline): after a warm-up exchange the server stops reading; 8-60 exchanges with 60 KiB queries and 0.5-1.5 s deadlines are started on sockets with an 8 KiB send buffer (on a pipelined connection the send path blocks after two or three of them), then a small probe with a 100-400 ms deadline; oracle: every exchange returns by its deadline + 3 s of scheduling slack (hundreds of exchanges start at once), and after the server resumes reading a new exchange is answered within 3 s; non-trivial = pipelined kind")
 	defer vfkit.Flush()
 	_, leaf := vfTLSMaterial()
 	rapid.Check(t, func(t *rapid.T) {
 		kind := rapid.SampledFrom([]string{"tcp", "tcp+pipeline", "tls", "tls+pipeline"}).Draw(t, "kind")
-		n := rapid.SampledFrom([]int{20, 160, 600, 1200}).Draw(t, "bigQueries")
+		// The upstream's sockets get a small send buffer (through the Control option the upstream package offers), so that
+		// a handful of 60 KiB queries fills send and receive buffers and the write really blocks - independent of how far
+		// the kernel would auto-tune the buffers on this machine.
+		n := rapid.SampledFrom([]int{8, 20, 60}).Draw(t, "bigQueries")
+		// scheduling slack: hundreds of goroutines with 60 KiB payloads (and TLS) are started at once on a machine that
+		// may be busy; the defect this test is after blocks until the connection's idle time-out, many seconds later
+		const slack = 3 * time.Second
 		bigDeadline := time.Duration(rapid.IntRange(500, 1500).Draw(t, "bigDeadlineMs")) * time.Millisecond
 		probeDeadline := time.Duration(rapid.IntRange(100, 400).Draw(t, "probeDeadlineMs")) * time.Millisecond
 		srv, err := vfkit.StartUpstream(kind, "w", "127.0.0.1", 0, vfkit.ServerTLS(leaf), func(q *vfkit.UpQuery) vfkit.UpAction {
@@ -490,7 +497,14 @@ func TestVfC14WriteStall(t *testing.T) {
 			t.Fatalf("fake server: %v", err)
 		}
 		defer srv.Close()
-		u := vfNewUpstream(t, kind, srv.Port, 0)
+		ca, _ := vfTLSMaterial()
+		u, err := upstream.NewUpstream(vfUpstreamAddr(kind, srv.Port), upstream.Opt{TLSConfig: &tls.Config{RootCAs: ca.Pool()},
+			Control: func(network, address string, c syscall.RawConn) error {
+				return c.Control(func(fd uintptr) { syscall.SetsockoptInt(int(fd), syscall.SOL_SOCKET, syscall.SO_SNDBUF, 8192) })
+			}})
+		if err != nil {
+			t.Fatalf("NewUpstream(%s): %v", kind, err)
+		}
 		defer func() {
 			srv.StopReading.Store(false)
 			if !vfClose(u) {
@@ -531,16 +545,16 @@ func TestVfC14WriteStall(t *testing.T) {
 		ctx, cancel := context.WithTimeout(context.Background(), probeDeadline)
 		ok, exErr, took := vfExchange(u, ctx, 7, "probe.c14")
 		cancel()
-		if took > probeDeadline+1200*time.Millisecond {
+		if took > probeDeadline+slack {
 			t.Fatalf("%s upstream whose server stopped reading (%d queries of 60 KiB backed up): the probe with a %v deadline returned after %v (ok=%v err=%v)", kind, n, probeDeadline, took, ok, exErr)
 		}
 		for i := 0; i < n; i++ {
 			select {
 			case r := <-results:
-				if r.took > bigDeadline+1200*time.Millisecond {
+				if r.took > bigDeadline+slack {
 					t.Fatalf("%s upstream whose server stopped reading: an exchange with a %v deadline returned after %v (%v)", kind, bigDeadline, r.took, r.err)
 				}
-			case <-time.After(bigDeadline + 4*time.Second):
+			case <-time.After(bigDeadline + slack + 2*time.Second):
 				t.Fatalf("%s upstream whose server stopped reading: %d of %d exchanges never returned (deadline %v)", kind, n-i, n, bigDeadline)
 			}
 		}
@@ -559,7 +573,7 @@ func TestVfC14WriteStall(t *testing.T) {
 		if !ok2 {
 			t.Fatalf("%s: no exchange succeeded within 3 s after the server resumed reading: %v", kind, err2)
 		}
-		st.Case(vfkit.Fingerprint(kind, n, bigDeadline, probeDeadline), strings.Contains(kind, "pipeline") && n >= 60, []string{"kind=" + kind}, func() any {
+		st.Case(vfkit.Fingerprint(kind, n, bigDeadline, probeDeadline), strings.Contains(kind, "pipeline"), []string{"kind=" + kind}, func() any {
 			return map[string]any{"kind": kind, "big_queries": n, "probe_took_ms": took.Milliseconds(), "probe_ok": ok}
 		})
 	})
